@@ -258,7 +258,7 @@ def run(ctx):
     ctx.guard("regenerate", gen, ctx)
     ok = ctx.lean_build(["HitenModel.Props.C04"])
     if ok:
-        ctx.lean_audit(["HitenModel.Props.C04"], ["HitenModel.Props.C04", "HitenModel.Gen.C04"])
+        ctx.lean_audit(["HitenModel.Props.C04"], ["HitenModel.Props.C04", "HitenModel.Gen.C04", "HitenModel.Lemmas.C04Tri"])
         if ctx.thorough():
             ctx.leanchecker(["HitenModel.Props.C04"])
     ctx.guard("validate_traces", validate_traces, ctx)
